@@ -3,7 +3,3 @@ package main
 func asmObligations(e *Engine, prop string, scratch string) ([]*Obligation, asmInfoT, string) {
 	return nil, asmInfoT{}, ""
 }
-
-func replayObligation(e *Engine, o *Obligation, scratch string) map[string]interface{} {
-	return map[string]interface{}{"confirmed": false, "note": "no concrete failing input was derived from the solver's answer"}
-}
